@@ -322,6 +322,7 @@ def rule_csv_tables(ctx: Ctx) -> RuleResult:
     # merge_escape_parts receives separator and escapechar
     ok = merge_args_ok is True
     r.ob(ok, lambda: Finding("CS-1", "%s::parse_line{merge-args}" % CSV, m.where(fn), "merge_escape_parts must receive the separator and the escape character"))
+    _check_none_filters(ctx, r, "CS-1", CSV, "load")
     # ---- type table --------------------------------------------------------------
     mt, ft = ctx.function(CSV, "type_parser")
     r.instances += 1
@@ -668,6 +669,80 @@ def rule_csv_classify(ctx: Ctx) -> RuleResult:
     # (L, first, not last, esc) and (L, first, not last, not esc) may be indistinguishable for the code: that is fine, both are covered when any is
     if missing and not r.findings:
         raise AnalysisError("merge_escape_parts: no loop-body path found for %s (%s)" % (_piece_name(missing[0][0]), "open" if missing[0][1] else "closed"))
+    r.require_instances(1)
+    return r
+
+
+def rule_csv_file_modes(ctx: Ctx) -> RuleResult:
+    """CS-5: what dump_to_file hands to file.write agrees with the mode the file is opened in: text (str) to a text-mode file, encoded
+    bytes to a binary one -- for the default encoding=None as well as for an explicit encoding.  The mode file.write falls back to
+    when it is given none is read from file.write itself."""
+    r = RuleResult("CS-5", "CSV dump_to_file: str lines go to a text-mode file, encoded bytes to a binary-mode file, whatever the encoding argument (None by default)")
+    md, fd = ctx.function(CSV, "dump_to_file")
+    inner = [n for n in fd.body if isinstance(n, ast.FunctionDef)]
+    returned = {x.value.id for x in fd.body if isinstance(x, ast.Return) and isinstance(x.value, ast.Name)}
+    ops_ = [n for n in inner if n.name in returned] or inner
+    if len(ops_) != 1:
+        raise AnalysisError("csv.dump_to_file: expected one inner operator function (the one it returns)")
+    wfn = ops_[0]
+    helpers = {n for n in inner if n is not wfn}
+    # the mode file.write uses when it is given none:  mode = mode or '<default>'
+    mw, fw = ctx.function("rxsci/io/file.py", "write")
+    fallback = None
+    for s in fw.body:
+        if isinstance(s, ast.Assign) and len(s.targets) == 1 and isinstance(s.targets[0], ast.Name) and s.targets[0].id == "mode" \
+                and isinstance(s.value, ast.BoolOp) and isinstance(s.value.op, ast.Or) and len(s.value.values) == 2 \
+                and isinstance(s.value.values[0], ast.Name) and s.value.values[0].id == "mode" and isinstance(s.value.values[1], ast.Constant):
+            fallback = s.value.values[1].value
+    dflt = _defaults(mw, fw).get("mode")
+    r.instances += 1
+    for enc in ("None", "Obj"):
+        got = False
+        for p in ctx.fn_paths(md, wfn, cfg={"encoding": enc}, only_inline=helpers):
+            r.paths += 1
+            if p.outcome != "return":
+                continue
+            st = _pipe_stages(p, p.value)
+            if st is None:
+                raise AnalysisError("csv.dump_to_file: the returned pipeline is not source.pipe(...)")
+            stages = st[1]
+            writes = [x for x in stages if _stage_id(x) == "rxsci.io.file.write"]
+            if len(writes) != 1:
+                raise AnalysisError("csv.dump_to_file: expected one file.write stage, found %s" % [_stage_id(x) for x in stages])
+            kw = _kwargs_of(writes[0])
+            mode = kw.get("mode")
+            if mode is None or mode == ("const", None):
+                eff = fallback if (mode is not None or dflt in (None, "None")) else None
+                if mode is None and dflt not in (None, "None"):
+                    eff = ast.literal_eval(dflt)
+            elif mode[0] == "const" and isinstance(mode[1], str):
+                eff = mode[1]
+            else:
+                raise AnalysisError("csv.dump_to_file: the mode handed to file.write (%s) is not decided by the encoding configuration" % show(mode))
+            if eff is None:
+                raise AnalysisError("csv.dump_to_file: cannot tell the mode file.write falls back to")
+            # is the line encoded on the way?  a map stage whose function returns <item>.encode(...)
+            encoded = False
+            for x in stages[:stages.index(writes[0])]:
+                if x[0] == "call" and x[1] == ("glob", "rx.operators.map") and x[2] and x[2][0][0] in ("lambda", "func"):
+                    fm, ff = x[2][0][2], x[2][0][1]
+                    for q in ctx.fn_paths(fm, ff, cfg={"encoding": enc}):
+                        if q.outcome == "return" and q.value is not None and q.value[0] == "mcall" and q.value[2] == "encode":
+                            encoded = True
+                elif _stage_id(x) == "rxsci.data.codec.encode":
+                    encoded = True
+            got = True
+            r.groups.add(("dump_to_file", enc))
+            ok = ("b" in eff) == encoded
+            r.ob(ok, lambda enc=enc, eff=eff, encoded=encoded, p=p: Finding(
+                "CS-5", "%s::dump_to_file{mode-%s}" % (CSV, "default" if enc == "None" else "encoding"), md.where(fd),
+                "with encoding %s the lines reach file.write as %s but the file is opened in mode %r (%s): %s" % (
+                    "None (the default)" if enc == "None" else "given", "bytes" if encoded else "str", eff,
+                    "file.write falls back to %r when it is given no mode" % fallback if eff == fallback else "as passed",
+                    "writing str to a binary file raises TypeError, so dump_to_file with its default arguments writes nothing" if not encoded else
+                    "writing bytes to a text file raises TypeError"), trace_of(p)))
+        if not got:
+            raise AnalysisError("csv.dump_to_file: no pipeline found for encoding %s" % enc)
     r.require_instances(1)
     return r
 
@@ -1030,8 +1105,36 @@ def rule_ag7(ctx: Ctx) -> RuleResult:
                 ok = v[0] == "binop" and v[1] == "Add" and v[3][0] == "param" and v[3][1] == "newline" and any(
                     (x[0] == "call" and x[1][0] == "glob" and x[1][1].endswith(".dumps")) for x in subterms(v[2]))
             r.ob(ok, lambda: mk_finding("AG-7", spec, None, cfg, p, "dump must emit dumps(item) + newline once per item; it emits %s" % summary(p), extra="dump"))
+    # load: the only items removed after parsing are the None markers of blank / ignored lines (an empty object {} is an item)
+    _check_none_filters(ctx, r, "AG-7", JSON, "load")
     r.require_instances(1)
     return r
+
+
+def _check_none_filters(ctx, r, rule_id, rel, fname):
+    """every rx filter stage of the load pipeline keeps exactly the items that are not None"""
+    m, fn = ctx.function(rel, fname)
+    found = 0
+    for n in ast.walk(fn):
+        if isinstance(n, ast.Call) and (dotted_name(n.func) or "").split(".")[-1] == "filter" and n.args:
+            ref = ctx.program.resolve_dotted(m, dotted_name(n.func))
+            if ref[0] == "def":
+                continue          # an rxsci operator, not the rx filter of the pipeline
+            found += 1
+            cb = n.args[0]
+            from .scan import _callable_def
+            cbfn = _callable_def(ctx, m, cb, m.enclosing_function(n))
+            ok = False
+            vals = []
+            if cbfn is not None:
+                A0 = ("arg", m.scopes[cbfn].params[0])
+                vals = [p.value for p in ctx.fn_paths(m, cbfn) if p.outcome == "return"]
+                ok = bool(vals) and all(v in (("cmp", "IsNot", A0, ("const", None)), ("cmp", "IsNot", ("const", None), A0)) for v in vals)
+            r.ob(ok, lambda n=n, vals=vals: Finding(
+                rule_id, "%s::%s{none-filter}" % (rel, fname), m.where(n),
+                "the filter after parsing must drop exactly the None markers (blank or ignored lines): 'item is not None'; its predicate returns %s, which "
+                "also drops legitimate falsy items (an empty object / row)" % ([show(v) for v in vals] or ast.unparse(n.args[0]))))
+    r.ob(found >= 1, lambda: Finding(rule_id, "%s::%s{none-filter}" % (rel, fname), m.where(fn), "%s no longer filters the None markers of blank / ignored lines" % fname))
 
 
 def _resolve_attr(ctx, m, node):
